@@ -1030,6 +1030,12 @@ def run(rep, prog, tier):
         generic.rule_name(rep, prog, prog.mod(INT), fn)
         generic.rule_def(rep, prog.mod(INT), fn)
     rep.floor('R-NPIDX', 2)
+    # the kernels sweep a raw C-ordered block (the .pyx wrappers pass phi.data): the scheme of axis k is applied to population k
+    # only if the array handed over is C-contiguous and owned (rule shared with C20 and C04)
+    from rules import c20
+    from sa.report import Scoped
+    c20.run(Scoped(rep, lambda rule, construct, what: rule == 'R-LAYOUT' and 'Integration.py' in construct), prog, tier)
+    rep.floor('R-LAYOUT', 15)
     # C: the integer abs() applied to a floating-point value truncates it first (|x| < 1 -> 0); fabs() is the floating-point one
     from sa.cfront import c_integer_abs_on_double
     for name, cf in sorted(cprog.funcs.items()):
